@@ -196,7 +196,7 @@ def check(run, model, tier):
         run.inst('REG.numbering-eval', init, 'the ten built-in names', set(bnames) == required,
                  'built-in set differs from the documented ten inner signals: %s' % sorted(set(bnames) ^ required), obligation=True)
         names = bnames
-        for users in ([], ['USER_0', 'USER_1'], ['USER_0', 'USER_1', 'USER_0', 'ENTRY_SIGNAL', 'USER_2']):
+        for users in ([], ['USER_0', 'USER_1'], ['USER_0', 'USER_1', 'USER_0', 'ENTRY_SIGNAL', 'USER_2'], ['USER_0', '', ' padded ', '0', 'USER_0', 'two words']):
             reg = built_world(users)
             want_names = list(names)
             for u in users:
@@ -210,7 +210,7 @@ def check(run, model, tier):
             if his_v != len(names) and eval_numbering is None:
                 eval_numbering = 'highest_inner_signal is %r after construction and %d registrations, expected the number of built-ins %d' % (his_v, len(users), len(names))
             worlds.append((reg, len(names)))
-        run.inst('REG.numbering-eval', append, 'numbers are position+1 and stable over 3 registration sequences (incl. repeated and built-in names)', eval_numbering is None,
+        run.inst('REG.numbering-eval', append, 'numbers are position+1 and stable over 4 registration sequences (incl. repeated, built-in, empty and padded names)', eval_numbering is None,
                  '' if eval_numbering is None else 'the numbering is not "each new name gets size+1, an existing name keeps its number": ' + eval_numbering, obligation=True)
     except AnalysisError as ex_:
         run.note('SignalSource.__init__/append are outside the evaluator\'s fragment (%s): numbering decided by the structural rules only' % ex_)
@@ -235,6 +235,10 @@ def check(run, model, tier):
                 reg['INNER_%d' % i] = i + 1
             for i in range(n_user):
                 reg['USER_%d' % i] = n_inner + i + 1
+            if n_user and n_inner == 3:
+                # any string is a signal name: the empty one, one that reads like a number, one with blanks around it
+                for i, odd in enumerate(('', '0', ' padded ')):
+                    reg[odd] = n_inner + n_user + i + 1
             reg.highest_inner_signal = n_inner
             for la in lock_attrs:
                 setattr(reg, la, pureeval.Obj())
